@@ -245,7 +245,7 @@ class Rewriter(ast.NodeTransformer):
                   [ast.Assign(targets=[store(s)], value=_rt("merge", _name(c), item(a, i), item(b, i))) for i, s in enumerate(srcs)]
         # try predicated; on MergeFail restore and fork
         pred = [ast.Try(body=pred_ok,
-                        handlers=[ast.ExceptHandler(type=ast.Attribute(value=_name(RT), attr="MergeFail", ctx=ast.Load()), name=None,
+                        handlers=[ast.ExceptHandler(type=ast.Attribute(value=_name(RT), attr="SpecFail", ctx=ast.Load()), name=None,
                                                     body=[ast.Expr(_rt("unwind"))] + restore(old) + [
                                                         ast.If(test=_rt("fork", _name(c)), body=_copy.deepcopy(body_then), orelse=_copy.deepcopy(body_else))])],
                         orelse=[], finalbody=[])]
